@@ -1,6 +1,6 @@
 SPECIFICATION Spec
-CONSTANT DVariant = "faithful"
-CONSTANT Tier = "thorough"
+CONSTANT DVariant = "u32_any_tag"
+CONSTANT Tier = "quick"
 INVARIANT RoundTrip
 INVARIANT Minimal
 INVARIANT WidthCompat
